@@ -124,6 +124,14 @@ def r14_2(run, model):
         t["typecheck args"] = m.group(1) if m else None
         m = re.search(r"InterfaceUnit::new\(([^;]*?)\);", body)
         t["interface args"] = m.group(1) if m else None
+        # the stages that can reject the sources: a diagnostics-producing stage followed by its gate
+        from rules import c03
+        ev = c03.events_of(run, f)
+        gated = []
+        for i, e in enumerate(ev):
+            if e[0] in ("typecheck", "matchc") and any(g[0] == "gate" and g[1] > e[1] for g in ev[i + 1:]):
+                gated.append(e[0])
+        t["rejecting stages"] = ("same stages answer for the sources", sorted(set(gated)))
         return t
 
     fa, fb = features(a), features(b)
